@@ -57,10 +57,10 @@ class ConclusionSelector(LogicalBinaryOperator, ABC):
             required_vars.update(vars_)
             # an argument of the conclusion may take several values for one value of its variable (flatten), the
             # argument expressions themselves tell two conclusions apart
-            argument_ids.update(
-                argument._id_
-                for argument in vars(conclusion.value).get("_child_vars_", {}).values()
-            )
+            # (also what an argument is derived from: an attribute of a flattened value)
+            for argument in vars(conclusion.value).get("_child_vars_", {}).values():
+                argument_ids.add(argument._id_)
+                argument_ids.update(node._id_ for node in argument._descendants_)
         required_output = {
             k: v
             for k, v in output.bindings.items()
